@@ -460,7 +460,6 @@ func (w *World) isParamOf(v ssa.Value, fn *ssa.Function, idx int) bool {
 	return ok && p.Parent() == fn && idx < len(fn.Params) && fn.Params[idx] == p
 }
 
-
 // valueReceiverField: fa addresses field k of the (spilled) value receiver of a method that is
 // only ever used as a method value `op.m` of one local struct variable op (a request carried by
 // value): the single value stored into op.k before the method value was taken. nil otherwise.
